@@ -321,6 +321,19 @@ class Run:
         self.streams: dict[str, int] = {}
         self.extra: dict = {}
 
+    def enough(self) -> bool:
+        """the verdict is settled: several property violations with failing inputs are in hand, further exploration only
+        costs time (a changed library can make every case slow)"""
+        if len(self.violations) >= 8:
+            return True
+        limit = 420 if self.tier == "quick" else 4 * 3600
+        if time.time() - self.t0 > limit:
+            if "time budget exhausted" not in self.notes:
+                self.notes.append("time budget exhausted")
+                self.extra["time_budget_exhausted_after_s"] = round(time.time() - self.t0)
+            return True
+        return False
+
     # bookkeeping -------------------------------------------------------
     def case(self, stream: str, case, nontrivial: bool):
         self.evaluations += 1
